@@ -154,6 +154,8 @@ let do_op (w : pg_doc * pg_doc) (f : string array) : (pg_doc * pg_doc) * string 
     | "sc" -> Some (PoShallowCopy (d, ni 2))
     | "cf" -> Some (PoCopyForeign (d, href 2 3))
     | "rp" -> Some (PoReplace (d, ni 2, value_of_text (unhex f.(3))))
+    | "ri" -> Some (PoReplaceInd (d, ni 2, href 3 4))
+    | "rr" -> Some (PoReplaceReserved (d, ni 2))
     | "sw" -> Some (PoSwap (d, ni 2, ni 3))
     | "uc" -> Some (PoRefresh d)
     | "pi" -> Some (PoPushInh d)
